@@ -58,11 +58,16 @@ def main(argv):
             text = gen()
             status = None
         except Fail as e:
-            # fail closed: a file that cannot satisfy any proof
-            text = HEADER.format(src="(pattern not found)") + \
-                "(* translator error: %s *)\nDefinition translator_failed_%s : False := I.\n" % (e, name.replace(".v", ""))
+            # Fail closed for the PROOFS (tools/check.py counts a translator error as a broken
+            # obligation) but keep the run module buildable: the previous snapshot's values stay,
+            # so that the correspondence run and the search for a failing input can still happen.
             status = "error: %s" % e
             rc = 2
+            if os.path.exists(path):
+                print("%s %s" % (name, status))
+                continue
+            text = HEADER.format(src="(pattern not found)") + \
+                "(* translator error: %s *)\nDefinition translator_failed_%s : False := I.\n" % (e, name.replace(".v", ""))
         old = None
         if os.path.exists(path):
             with open(path) as f:
